@@ -14,6 +14,7 @@ import (
 	"github.com/gauss-project/aurorafs/pkg/aurora"
 	"github.com/gauss-project/aurorafs/pkg/crypto"
 	"github.com/gauss-project/aurorafs/pkg/logging"
+	"github.com/gauss-project/aurorafs/pkg/p2p"
 	"github.com/gauss-project/aurorafs/pkg/p2p/libp2p/internal/handshake"
 	"github.com/gauss-project/aurorafs/pkg/p2p/libp2p/internal/handshake/mock"
 	"github.com/gauss-project/aurorafs/pkg/p2p/libp2p/internal/handshake/pb"
@@ -27,6 +28,12 @@ import (
 type verifResolver struct{}
 
 func (verifResolver) Resolve(o ma.Multiaddr) (ma.Multiaddr, error) { return o, nil }
+
+// every real node installs a picker (the topology driver); without one the compiler may drop
+// loads whose only use is the picker call
+type verifPicker struct{}
+
+func (verifPicker) Pick(p2p.Peer) bool { return true }
 
 func TestVerifReplay(t *testing.T) {
 	logger := logging.New(io.Discard, 0)
@@ -48,6 +55,7 @@ func TestVerifReplay(t *testing.T) {
 	light := lightnode.NewContainer(o1)
 	svc, err := handshake.New(signer1, verifResolver{}, o1, networkID, aurora.NewModel().SetMode(aurora.FullNode), "hi", node1AddrInfo.ID, logger, light, lightnode.DefaultLightNodeLimit)
 	if err != nil { t.Fatal(err) }
+	svc.SetPicker(verifPicker{})
 	goodAddr := &pb.BzzAddress{Underlay: node2maBinary, Overlay: a2.Overlay.Bytes(), Signature: a2.Signature}
 	mode := []byte{1}
 	big := bytes.Repeat([]byte{0xff}, 70000)
